@@ -147,7 +147,10 @@ def check(repo, rep):
         if l.outcome != 'return':
             continue
         nret += 1
-        g = norm_cmp(l.value, True)
+        val = l.value
+        while val[0] == 'call' and len(val[2]) == 1 and (val[1] == ('b', 'bool') or npname(val[1]) in ('all', 'any', 'bool_')):
+            val = val[2][0]          # bool(np.all(x)) of a scalar / 1-element comparison
+        g = norm_cmp(val, True)
         ok = g is not None and ((g[0] == '>=' and isthr(g[2]) and not any(isthr(x) for x in walk(g[1]))) or (g[0] == '<=' and isthr(g[1]) and not any(isthr(x) for x in walk(g[2]))))
         rep.ob('window is active iff energy >= threshold (inclusive, threshold only on one side: raising it can only deactivate)', ok, cx.where('util', l.node), 'AudioEnergyValidator.is_valid:comparison',
                'is_valid returns %s' % show(l.value)[:160], sample=dict(decision=show(l.value)[:140]))
